@@ -36,6 +36,41 @@ func verifSrvPoint(point string) {
 	}
 }
 
+var verifMsgHook atomic.Pointer[func(point string, node uint32, msgID uint64)]
+
+// VerifSetMsgHook installs f as the function invoked at every per-message verif point.
+func VerifSetMsgHook(f func(point string, node uint32, msgID uint64)) {
+	if f == nil {
+		verifMsgHook.Store(nil)
+		return
+	}
+	verifMsgHook.Store(&f)
+}
+
+func verifMsg(point string, c *channel, msgID uint64) {
+	if f := verifMsgHook.Load(); f != nil {
+		var id uint32
+		if c != nil && c.node != nil {
+			id = c.node.id
+		}
+		(*f)(point, id, msgID)
+	}
+}
+
+// VerifRouterIDs returns the message IDs of the response routers registered on n.
+func VerifRouterIDs(n *RawNode) []uint64 {
+	if n == nil || n.channel == nil {
+		return nil
+	}
+	n.channel.responseMut.Lock()
+	defer n.channel.responseMut.Unlock()
+	ids := make([]uint64, 0, len(n.channel.responseRouters))
+	for id := range n.channel.responseRouters {
+		ids = append(ids, id)
+	}
+	return ids
+}
+
 // VerifRouterCount returns the number of response routers registered on n.
 func VerifRouterCount(n *RawNode) int {
 	if n == nil || n.channel == nil {
